@@ -262,6 +262,43 @@ def correspond(ctx):
                     break
                 lines.append(f'c06.berr2d {m} {n} {dr} {dc} {q(lamr)} {q(lamc)} {qs(w_seq[k])} {qs(Y.ravel())} {qs(np.asarray(v).ravel())}')
                 metas.append(('berr', {'host': '2d.' + host, 'kind': '2d', 'shape': [m, n], 'd': [dr, dc], 'lam': [lamr, lamc], 'step': k, 'kw': {}, 'x': [], 'y': []}))
+    # 2-D assembled matrix: the sparse `lhs` handed to PenalizedSystem2D.direct_solve against the Lean model `asm2d`
+    # (kron(lam_r P_r, I) + kron(I, lam_c P_c) with main_diagonal + w); dyadic lam and weights, so the first solve is exact
+    for host in ('asls', 'arpls', 'airpls'):
+        for (m, n, dr, dc) in [(3, 3, 1, 2), (4, 5, 2, 1), (5, 4, 1, 3), (6, 5, 2, 2), (4, 7, 3, 2), (5, 5, 2, 3), (2, 6, 1, 2), (7, 3, 3, 1)]:
+            if not ctx.thorough and rng.random() < 0.5:
+                continue
+            x, z, Y = M.make_data2d(rng, m, n)
+            lamr, lamc = float(2.0 ** int(rng.integers(-3, 12))), float(2.0 ** int(rng.integers(-3, 12)))
+            W0 = np.round(rng.uniform(0.05, 1, (m, n)) * 64) / 64
+            caps = []
+            orig = wu2.PenalizedSystem2D.direct_solve
+
+            def ds2(obj, lhs, rhs, __orig=orig):
+                caps.append((np.array(lhs.toarray(), dtype=float), np.array(rhs, dtype=float, copy=True)))
+                return __orig(obj, lhs, rhs)
+            wu2.PenalizedSystem2D.direct_solve = ds2
+            try:
+                with Capture() as cap:
+                    with np.errstate(all='ignore'):
+                        getattr(Baseline2D(x, z), host)(Y, lam=(lamr, lamc), diff_order=(dr, dc), num_eigens=None, max_iter=1, tol=0.0, weights=W0)
+            except Exception as ex:
+                ctx.count('2d-asm-raised:' + type(ex).__name__)
+                continue
+            finally:
+                wu2.PenalizedSystem2D.direct_solve = orig
+            ctx.case(('2d-asm', host, m, n, dr, dc, lamr, lamc), nontrivial=True)
+            ctx.count('host2d-asm:' + host)
+            w_seq = [W0.ravel()] + [r.ravel() for r in cap.rules]
+            for k, (lhs2, rhs2) in enumerate(caps):
+                if k >= len(w_seq) or not np.all(np.isfinite(w_seq[k])):
+                    break
+                if not np.array_equal(rhs2, w_seq[k] * Y.ravel()):
+                    dis.append(Disagreement('c06.model', 'model:rhs2d', f'2-D {host} ({(m, n)}): the right-hand side handed to the solver is not w * y',
+                                            {'host': '2d.' + host, 'shape': [m, n], 'step': k}, False))
+                lines.append(f'c06.asm2d {m} {n} {dr} {dc} {q(lamr)} {q(lamc)} {qs(w_seq[k])}')
+                metas.append(('asm2d', {'host': '2d.' + host, 'kind': '2d', 'shape': [m, n], 'n': [m, n], 'd': [dr, dc], 'lam': [lamr, lamc], 'step': k, 'solver': None},
+                              lhs2, k == 0))
     # 2-D returned pairs (direct system): with tol = inf the run stops after its first solve, and when a run reports convergence,
     # the returned baseline and the returned weights must satisfy the documented system together
     for host in ('asls', 'airpls', 'arpls', 'iarpls', 'psalsa', 'lsrpls', 'brpls'):
@@ -331,6 +368,15 @@ def correspond(ctx):
                 dis.append(Disagreement('c06.berr', f'{meta["host"]}:system', f'{meta["host"]} (N={meta.get("n", meta.get("shape"))}, d={meta["d"]}, lam={meta["lam"]}, '
                                         f'solver={meta.get("solver")}, step {meta["step"]}): the baseline does not solve the documented system for the weights in '
                                         f'force (exact normwise backward error {be:.3g})', meta, True))
+        elif mt[0] == 'asm2d':
+            _, meta, lhs, exact = mt
+            pred = np.array([[float(v) for v in parse_qs(row)] for row in r.split(';')])
+            ok = pred.shape == lhs.shape and (np.array_equal(lhs, pred) if exact else np.allclose(lhs, pred, rtol=4 * EPS, atol=0))
+            if not ok:
+                dis.append(Disagreement('c06.model', 'model:asm2d', f'{meta["host"]} (shape {meta["shape"]}, diff_order={meta["d"]}, lam={meta["lam"]}, step '
+                                        f'{meta["step"]}): the sparse matrix handed to the solver differs from the Lean model of kron(lam_r P_r, I) + '
+                                        f'kron(I, lam_c P_c) + diag(w)' + ('' if pred.shape != lhs.shape else f' (max abs diff {float(np.max(np.abs(lhs - pred))):.3g})'),
+                                        meta, False))
         else:
             _, meta, lhs = mt
             pred = np.array([[float(v) for v in parse_qs(row)] for row in r.split(';')])
